@@ -10,24 +10,10 @@ FULL = {"_full_observable", "_full_grid"}
 
 
 def _private_closure(prog, C, roots):
-    """roots + the private helpers (self._x / Class._x) they call, transitively."""
-    out, work = [], list(roots)
-    while work:
-        f = work.pop()
-        if f in out:
-            continue
-        out.append(f)
-        sn = f.params[0] if f.params and f.kind != "static" else None
-        for n in ast.walk(f.node):
-            if isinstance(n, ast.Call) and isinstance(n.func, ast.Attribute) and \
-                    isinstance(n.func.value, ast.Name) and n.func.attr.startswith("_") \
-                    and not n.func.attr.startswith("__") and \
-                    (n.func.value.id == sn or n.func.value.id in ("self", "cls") or
-                     n.func.value.id in prog.classes):
-                g = prog.lookup(C, n.func.attr)
-                if g is not None and g not in out:
-                    work.append(g)
-    return out
+    """roots + the private helpers (methods or module-level functions) they
+    call, transitively."""
+    from .idioms import private_closure
+    return private_closure(prog, C, roots)
 
 
 def d1(run: Run, prog: Program):
@@ -223,6 +209,16 @@ def d3(run: Run, prog: Program):
                 rv = _il(f.node, r.value, defs=_defs)
                 ks = {bk(x) for c in ast.walk(rv) if isinstance(c, ast.Compare)
                       for x in [c.left] + c.comparators} - {None}
+                # masks bound in several branches (if bounds coincide: all True,
+                # else: the comparisons): every definition counts
+                for nm_ in [x.id for x in ast.walk(rv) if isinstance(x, ast.Name)]:
+                    for a_ in ast.walk(f.node):
+                        if isinstance(a_, ast.Assign) and any(
+                                isinstance(t_, ast.Name) and t_.id == nm_
+                                for t_ in a_.targets):
+                            ks |= {bk(x) for c in ast.walk(a_.value)
+                                   if isinstance(c, ast.Compare)
+                                   for x in [c.left] + c.comparators} - {None}
                 for k in ks:
                     ret_axes.setdefault(f.name, set()).add(k.rsplit("_", 1)[0])
     for axis, d in sorted(pairs.items()):
@@ -260,6 +256,9 @@ def d3(run: Run, prog: Program):
                 if isinstance(c, ast.Call) and isinstance(c.func, ast.Attribute) and \
                         c.func.attr in ret_axes:
                     masks.setdefault(a_.targets[0].id, set()).update(ret_axes[c.func.attr])
+                elif isinstance(c, ast.Call) and isinstance(c.func, ast.Name) and \
+                        c.func.id in ret_axes:
+                    masks.setdefault(a_.targets[0].id, set()).update(ret_axes[c.func.id])
     ok = False
     if len(st) == 1:
         v = st[0].value
